@@ -66,45 +66,65 @@ func checkQuantifier(r *Run, prog *Program, a *Anchors, pfx string) {
 		r.Fail("unresolved-anchor", pfx+".binding", "WithLocalVariable", "", "function not found")
 		return
 	}
-	// the loop header: If on `i < v.Len()`
-	var header *ssa.BasicBlock
-	for _, b := range fn.Blocks {
-		if ifi, ok := b.Instrs[len(b.Instrs)-1].(*ssa.If); ok {
-			if bo, ok := ifi.Cond.(*ssa.BinOp); ok && bo.Op == token.LSS {
-				if c, ok := bo.Y.(*ssa.Call); ok && isReflectMethod(c.Call.StaticCallee(), "Len") {
-					header = b
+	// the element loops: If on `i < v.Len()` — in the evaluator itself or in an unexported helper it is split into (one per
+	// container class, …)
+	foldFns := []*ssa.Function{fn}
+	seenF := map[*ssa.Function]bool{fn: true}
+	for i := 0; i < len(foldFns); i++ {
+		for _, b := range foldFns[i].Blocks {
+			for _, ins := range b.Instrs {
+				if c, ok := ins.(*ssa.Call); ok {
+					if g := c.Call.StaticCallee(); g != nil && !seenF[g] && bexprHelper(prog, a, g) && !strings.HasPrefix(g.Name(), "With") {
+						seenF[g] = true
+						foldFns = append(foldFns, g)
+					}
 				}
 			}
 		}
 	}
-	if header == nil {
-		r.Fail("unresolved-anchor", pfx+".fold", "loop", prog.pos(fn.Pos()), "no loop of the form `i < collection.Len()` found in the collection evaluator")
-		return
-	}
-	// canonical ascending induction variable: phi(0, phi+1)
-	loopOK := false
-	if bo, ok := header.Instrs[len(header.Instrs)-1].(*ssa.If).Cond.(*ssa.BinOp); ok {
-		if phi, ok := bo.X.(*ssa.Phi); ok && len(phi.Edges) == 2 {
-			zero, step := false, false
-			for _, e := range phi.Edges {
-				if c, ok := e.(*ssa.Const); ok && c.Value != nil && c.Value.Kind() == constant.Int {
-					if v, _ := constant.Int64Val(c.Value); v == 0 {
-						zero = true
+	headerT := map[string]bool{}
+	for _, ff := range foldFns {
+		for _, b := range ff.Blocks {
+			ifi, ok := b.Instrs[len(b.Instrs)-1].(*ssa.If)
+			if !ok {
+				continue
+			}
+			bo, ok := ifi.Cond.(*ssa.BinOp)
+			if !ok || bo.Op != token.LSS {
+				continue
+			}
+			c, ok := bo.Y.(*ssa.Call)
+			if !ok || !isReflectMethod(c.Call.StaticCallee(), "Len") {
+				continue
+			}
+			// canonical ascending induction variable: phi(0, phi+1)
+			loopOK := false
+			if phi, ok := bo.X.(*ssa.Phi); ok && len(phi.Edges) == 2 {
+				zero, step := false, false
+				for _, e := range phi.Edges {
+					if c, ok := e.(*ssa.Const); ok && c.Value != nil && c.Value.Kind() == constant.Int {
+						if v, _ := constant.Int64Val(c.Value); v == 0 {
+							zero = true
+						}
 					}
-				}
-				if add, ok := e.(*ssa.BinOp); ok && add.Op == token.ADD && add.X == ssa.Value(phi) {
-					if c, ok := add.Y.(*ssa.Const); ok {
-						if v, _ := constant.Int64Val(c.Value); v == 1 {
-							step = true
+					if add, ok := e.(*ssa.BinOp); ok && add.Op == token.ADD && add.X == ssa.Value(phi) {
+						if c, ok := add.Y.(*ssa.Const); ok {
+							if v, _ := constant.Int64Val(c.Value); v == 1 {
+								step = true
+							}
 						}
 					}
 				}
+				loopOK = zero && step
 			}
-			loopOK = zero && step
+			r.Check(pfx+".visit-order", "induction-variable", prog.pos(ifi.Pos()), loopOK, "the element loop must start at 0, step by +1 and run while i < Len() (index order, every element)")
+			headerT[fmt.Sprintf("%s.b%d:T", ff.Name(), b.Index)] = true
 		}
 	}
-	r.Check(pfx+".visit-order", "induction-variable", prog.pos(header.Instrs[len(header.Instrs)-1].Pos()), loopOK, "the element loop must start at 0, step by +1 and run while i < Len() (index order, every element)")
-	headerT := fmt.Sprintf("%s.b%d:T", fn.Name(), header.Index)
+	if len(headerT) == 0 {
+		r.Fail("unresolved-anchor", pfx+".fold", "loop", prog.pos(fn.Pos()), "no loop of the form `i < collection.Len()` found in the collection evaluator")
+		return
+	}
 
 	r.Floor(pfx+".fold", 20)
 	ke := &kindEnv{prog: prog}
@@ -189,7 +209,7 @@ func checkQuantifier(r *Run, prog *Program, a *Anchors, pfx string) {
 				}
 				iters := 0
 				for _, t := range sm.St.trail {
-					if t == headerT {
+					if headerT[t] {
 						iters++
 					}
 				}
@@ -284,7 +304,7 @@ func checkQuantifier(r *Run, prog *Program, a *Anchors, pfx string) {
 						probs = append(probs, fmt.Sprintf("iteration %d: the options handed to the body are not a fresh copy of the incoming options followed by the new bindings (base %s)", n, shortKey(base)))
 						continue
 					}
-					probs = append(probs, checkBindings(prog, sm, wlv, pExpr, v, cls, int64(n), parts[1:])...)
+					probs = append(probs, checkBindings(prog, sm, wlv, pExpr, v, cls, int64(n), flattenAppended(sm.St, parts[1:], 0))...)
 				}
 				r.Check(pfx+".fold", cell+":"+cls, pos, len(probs) == 0, strings.Join(uniq(probs), "; ")+trail)
 			}
@@ -303,14 +323,45 @@ func checkQuantifier(r *Run, prog *Program, a *Anchors, pfx string) {
 var bindingChecks int
 
 // checkBindings: the WithLocalVariable options appended for one iteration.
-func checkBindings(prog *Program, sm *Summary, wlv *ssa.Function, pExpr, v *Sym, cls string, n int64, parts []Event) []string {
+// flattenAppended: the elements appended by a chain of append calls, in order: `append(s, x)` contributes x,
+// `append(s, t...)` contributes the elements of t when t is itself built by appends onto nil (a list of bindings computed by
+// a helper). A nil entry stands for something that is not such an element.
+func flattenAppended(st *pstate, parts []Event, depth int) []*Sym {
+	var out []*Sym
+	for _, p := range parts {
+		if len(p.Deref) > 1 && p.Deref[1] != nil {
+			d := p.Deref[1]
+			if d.K != sStruct {
+				out = append(out, nil)
+				continue
+			}
+			for i := 0; i < len(d.F); i++ {
+				out = append(out, getPath(d, []string{fmt.Sprintf("[const(%d)]", i)}))
+			}
+			continue
+		}
+		if len(p.Args) == 2 && depth < 3 {
+			if p.Args[1].IsNil() {
+				continue // append(s, nil...) adds nothing
+			}
+			base, sub := appendChain(st, p.Args[1])
+			if base != nil && base.IsNil() && len(sub) > 0 {
+				out = append(out, flattenAppended(st, sub, depth+1)...)
+				continue
+			}
+		}
+		out = append(out, nil)
+	}
+	return out
+}
+
+func checkBindings(prog *Program, sm *Summary, wlv *ssa.Function, pExpr, v *Sym, cls string, n int64, parts []*Sym) []string {
 	var probs []string
 	seen := map[string]string{}
-	for _, p := range parts {
+	for _, el := range parts {
 		bindingChecks++
 		// append(innerOpt, WithLocalVariable(name, path, value)) : the variadic element
-		el := getPath(p.Deref[1], []string{"[const(0)]"})
-		if p.Deref[1] == nil || el == nil {
+		if el == nil {
 			probs = append(probs, "an option appended for the body is not a single new binding")
 			continue
 		}
